@@ -26,8 +26,8 @@ ASSUMPTIONS = [
 
 
 def plan(tier, seed):
-    n = 40 if tier == "quick" else 900
-    return [{"name": "refine-%d" % p, "n": n} for p in range(10 if tier == "quick" else 16)]
+    n = 180 if tier == "quick" else 3000
+    return [{"name": "refine-%d" % p, "n": n} for p in range(16)]
 
 
 def cut(r, iv, labels, ncuts):
